@@ -70,11 +70,13 @@ var ParseTexts = []string{
 }
 
 var SharedTexts = []string{
-	"SELECT x, y::field AS al, mean(x), s::tag FROM m WHERE host::tag = 'a' AND x::field > 1.5 AND y::integer > 0 GROUP BY host",
+	"SELECT x, y::field AS al, mean(x), s::tag, (x + 1), ((y)) FROM m WHERE host::tag = 'a' AND x::field > 1.5 AND y::integer > 0 GROUP BY host",
 	"SELECT /x|y/, top(x, host, 2) INTO db.rp.t FROM (SELECT * FROM m WHERE s =~ /^(a|b)$/), db2..m2, /re/ WHERE time > now() - 1h AND host =~ /^srv$/ GROUP BY time(1m), * fill(1.5) ORDER BY time DESC LIMIT 3 TZ('UTC')",
 	"SELECT *, count(*), time FROM m, m2 GROUP BY *",
 	"CREATE CONTINUOUS QUERY cq ON db BEGIN SELECT mean(x) INTO t FROM m WHERE host !~ /^(a|b)$/ GROUP BY time(1h) END",
 	"SELECT *, percentile(x, 90), top(y, host, 2) FROM m WHERE time > now() - 1h GROUP BY host, time(10m, now())",
+	// sibling subqueries, two of which cannot be expanded: the error reported is that of the first one in source order
+	"SELECT * FROM (SELECT mean(*::tag) FROM m), (SELECT max(*::tag) FROM m), (SELECT x FROM m GROUP BY host), m2",
 	// a wildcard or regex directly inside a call of every class that the expansion treats differently
 	"SELECT mean(*), count(/x|y/), min(*), holt_winters(*, 10, 2), holt_winters_with_fit(/x|y/, 10, 2), sum(/x/), first(*), sample(*, 2) FROM m",
 }
